@@ -62,6 +62,27 @@ def main():
                         out[vid][f"error@{tag}"] = f"{type(e).__name__}: {str(e)[:200]}"
     finally:
         time.time, time.monotonic, time.perf_counter = real
+    # the same output PATHS used twice: a definition generated into a directory that already holds the output of a look-alike
+    # (same names, hence the same header; other noise values and one other coefficient, hence another source) must give exactly
+    # what it gives in an empty directory
+    seen_defs = set()
+    for vid, d in jobs:
+        di = vid.split(":")[0]
+        if di in seen_defs or len(seen_defs) >= 3 or not d.get("pnoise"):
+            continue
+        seen_defs.add(di)
+        alike = json.loads(json.dumps(d))
+        alike["pnoise"] = [[k_, v_ * 4.0 + 0.125] for k_, v_ in alike["pnoise"]]
+        alike["snoise"] = [[k_, [[r_, v_ * 2.0 + 0.25] for r_, v_ in rs_]] for k_, rs_ in alike["snoise"]]
+        with core.quiet():
+            try:
+                with cppharness.Scratch() as sc:
+                    cppharness.generate(alike, {}, sc.dir, "det", ekf=True)
+                    r, header, source = cppharness.generate(d, {}, sc.dir, "det", ekf=True)
+                    out[vid]["ekf_header@reused-paths"] = open(header).read()
+                    out[vid]["ekf_source@reused-paths"] = open(source).read()
+            except Exception as e:
+                out[vid]["error@reused-paths"] = f"{type(e).__name__}: {str(e)[:200]}"
     sys.stdout.write(json.dumps({"hashseed": os.environ.get("PYTHONHASHSEED"), "results": out}) + "\n")
 
 
